@@ -23,6 +23,7 @@ Step(e) ==
     [] e.ev = "stuck" -> MonStuck(mon, e)
     [] e.ev = "stall" -> MonStall(mon, e)
     [] e.ev = "abandon" -> MonAbandon(mon, e)
+    [] e.ev = "conn" -> MonConn(mon)
     [] OTHER -> mon
 
 Next ==
